@@ -53,8 +53,13 @@ class Scen(CoreScenario):
             ok = obs[f"{t}.ready"] and obs[f"{t}.runnable"] and not obs[f"{t}.run"]
             if not ok:
                 raise Violation("profile-locked-mismatch", f"cycle {k}: {t} marked locked but ready={obs[f'{t}.ready']} runnable={obs[f'{t}.runnable']} run={obs[f'{t}.run']}")
-            if not obs.get(f"{by}.run") or (t, by) not in self.rel:
-                raise Violation("profile-locked-mismatch", f"cycle {k}: {t} marked locked by {by}, which {'did not run' if not obs.get(f'{by}.run') else 'does not conflict with it'}")
+            # "a conflicting transaction ran": the named transaction ran and is related to t at all (a shared method
+            # or an explicit relation).  Whether the library's conflict graph is *right* is C01 / C07's business -- a
+            # profile that faithfully names the transaction the arbiter let win must not be blamed for it.
+            related = (t, by) in self.rel or bool(set(a.tree_methods.get(t, [])) & set(a.tree_methods.get(by, []))) or \
+                any({x, y} == {t, by} for x, y, _ in self.expl)
+            if not obs.get(f"{by}.run") or not related:
+                raise Violation("profile-locked-mismatch", f"cycle {k}: {t} marked locked by {by}, which {'did not run' if not obs.get(f'{by}.run') else 'is unrelated to it'}")
             self.count_locked[t] = self.count_locked.get(t, 0) + 1
             self.hit("transaction_recorded_locked")
 
